@@ -247,6 +247,7 @@ def c28(ck, F, tier):
     guarded(ck, rs.sel_repair, F)
     guarded(ck, rs.sel_sheet, F)
     guarded(ck, rs.sel_cell, F)
+    guarded(ck, rs.clamp_post, F)
 
 
 def c05(ck, F, tier):
@@ -447,6 +448,7 @@ def c31(ck, F, tier):
     ck.rule("SPILL", "spill write/clear guards and constructors", floor=8)
     guarded(ck, rs.spill_reset, F)
     guarded(ck, rs.spill_rules, F)
+    guarded(ck, rs.dynamic_scalar_extent, F)
 
 
 def c27(ck, F, tier):
